@@ -32,7 +32,7 @@ def main():
         tname = os.path.splitext(os.path.basename(dest))[0]
         os.makedirs(os.path.dirname(os.path.join(wt, dest)), exist_ok=True)
         shutil.copy(demo, os.path.join(wt, dest))
-        tgt = dict(os.environ, CARGO_TARGET_DIR='/tmp/seed_target')
+        tgt = dict(os.environ, CARGO_TARGET_DIR=os.environ.get('SEED_TARGET', '/tmp/seed_target'))
         rc0, o0 = sh('cargo test --offline %s --test %s' % (extra, tname), cwd=wt, env=tgt)
         res['demo_passes_unchanged'] = rc0 == 0
         rc, o = sh('git apply %s' % patch, cwd=wt)
@@ -54,7 +54,7 @@ def main():
     try:
         shutil.copy('/repo/Cargo.lock', os.path.join(wt2, 'Cargo.lock'))
         rc, o = sh('git apply %s' % patch, cwd=wt2)
-        env = dict(os.environ, VERIF_REPO=wt2, VERIF_EVIDENCE_DIR='/tmp/seed_evidence', VERIF_REPLAY_DIR='/tmp/seed_replay')
+        env = dict(os.environ, VERIF_REPO=wt2, VERIF_EVIDENCE_DIR='/tmp/seed_evidence.%d' % os.getpid(), VERIF_REPLAY_DIR='/tmp/seed_replay.%d' % os.getpid())
         for c in checks:
             rc, o = sh('./check %s' % c, cwd=os.path.dirname(os.path.dirname(os.path.abspath(__file__))), timeout=3600, env=env)
             v = [l for l in o.split('\n') if l.startswith('VIOLATION') or l.startswith('UNDECIDED') or l.startswith('OK ') or l.startswith('KNOWN')]
@@ -62,6 +62,8 @@ def main():
             res['checks'][c] = {'rc': rc, 'lines': v[:4], 'failed': fo[:8]}
     finally:
         sh('git -C /repo worktree remove --force %s' % wt2)
+        shutil.rmtree('/tmp/seed_evidence.%d' % os.getpid(), ignore_errors=True)
+        shutil.rmtree('/tmp/seed_replay.%d' % os.getpid(), ignore_errors=True)
     print(json.dumps(res))
 
 main()
